@@ -186,6 +186,17 @@ def run_selftest(prop, root, mod, jobs=16):
             skipped.append({'name': os.path.basename(d), 'kind': 'seeded', 'outcome': 'skipped', 'error': str(e)})
             continue
         variants.append((prop, root, os.path.basename(d), overlay, None, 'seeded'))
+    for d in sorted(glob.glob(os.path.join(VERIF_DIR, 'refactors', prop + '-*'))):
+        pf = os.path.join(d, 'patch.diff')
+        if not os.path.exists(pf):
+            continue
+        try:
+            with open(pf, encoding='utf-8') as f:
+                overlay = apply_unified_diff(root, f.read())
+        except ValueError as e:
+            skipped.append({'name': 'refactor ' + os.path.basename(d), 'kind': 'twin', 'outcome': 'skipped', 'error': str(e)})
+            continue
+        variants.append((prop, root, 'refactor ' + os.path.basename(d), overlay, None, 'twin'))
     results = []
     if variants:
         try:
